@@ -185,6 +185,7 @@ func vfC40DescribeDiff(got, want string) map[string]any {
 type vfC40Side struct {
 	name    string
 	d       IDbms
+	sv      *Sviews
 	th      *Thread
 	trans   map[int]ITran
 	queries map[int]IQuery
@@ -222,7 +223,10 @@ func vfC40WithKey(rec Record, key string) Record {
 }
 
 func vfC40NewSide(name string, d IDbms) *vfC40Side {
-	return &vfC40Side{name: name, d: d, th: NewThread(nil), trans: map[int]ITran{}, queries: map[int]IQuery{},
+	th := NewThread(nil)
+	sv := &Sviews{}
+	th.SetSviews(sv) // what a local session's thread carries; the client-server side ignores it (the server keeps its own per connection)
+	return &vfC40Side{name: name, d: d, th: th, sv: sv, trans: map[int]ITran{}, queries: map[int]IQuery{},
 		cursors: map[int]ICursor{}, hdrs: map[int]*Header{}, qtran: map[int]int{}, offs: map[string]uint64{}, last: map[int][2]string{}}
 }
 
@@ -332,7 +336,7 @@ func (sd *vfC40Side) exec1(op *vfC40Op) string {
 	d, th := sd.d, sd.th
 	switch op.kind {
 	case "admin":
-		d.Admin(op.s, nil)
+		d.Admin(op.s, sd.sv)
 		return "ok"
 	case "tran":
 		t := d.Transaction(op.b)
@@ -374,12 +378,12 @@ func (sd *vfC40Side) exec1(op *vfC40Op) string {
 		sd.forget(op.h2)
 		return fmt.Sprint("n=", sd.trans[op.h2].Action(th, op.s))
 	case "query":
-		q := sd.trans[op.h2].Query(op.s, nil)
+		q := sd.trans[op.h2].Query(op.s, sd.sv)
 		sd.queries[op.h] = q
 		sd.qtran[op.h] = op.h2
 		return "ok"
 	case "cursor":
-		c := d.Cursor(op.s, nil)
+		c := d.Cursor(op.s, sd.sv)
 		sd.cursors[op.h] = c
 		return "ok"
 	case "header":
@@ -575,6 +579,7 @@ type vfC40Gen struct {
 	writer  int
 	pending []*vfC40Op
 	markers int
+	sview   string // a session view defined by this program ("" = none yet)
 }
 
 // finish returns the ops that end transaction t: for an update transaction that may write, a
@@ -733,6 +738,9 @@ func (g *vfC40Gen) queryText() (string, bool, string) {
 		s      string
 		sorted bool
 		tbl    string
+	}
+	if g.sview != "" && r.IntN(5) == 0 {
+		return []string{g.sview + " sort k", g.sview + " where a < 6 sort k", g.sview + " project k, a sort k"}[r.IntN(3)], true, ""
 	}
 	qs := []q{
 		{T, false, T}, {T + " sort k", true, T}, {T + " sort reverse k", true, T},
@@ -942,8 +950,17 @@ func (g *vfC40Gen) next(step, steps int) *vfC40Op {
 					keycol = ""
 				}
 			}
+			if r.IntN(25) == 0 {
+				// an argument that cannot be sent: an object containing itself (the request is abandoned on the
+				// client after part of it was buffered; locally the same value is refused too)
+				ob.Set(SuStr("a"), ob)
+				keycol = ""
+			}
 			val = ob
 			op := &vfC40Op{kind: "getone", val: val, dir: dir, s: keycol}
+			if ob.HasKey(SuStr("a")) && ob.Get(nil, SuStr("a")) == Value(ob) {
+				op.nocmp = true // refused on both sides, for different reasons (cannot be packed / cannot be written as query text): only "is an error" is compared
+			}
 			if t, ok := g.pickTran(); ok && r.IntN(2) == 0 {
 				op.h2 = t.h
 			}
@@ -977,6 +994,11 @@ func (g *vfC40Gen) next(step, steps int) *vfC40Op {
 		case x < 98: // schema change on own tables (no transaction of this program open)
 			if len(g.trans) > 0 {
 				continue
+			}
+			if g.sview == "" && r.IntN(2) == 0 {
+				// a session view: known to this session only, used by later queries and one-shot gets
+				g.sview = fmt.Sprintf("sv%d", g.id)
+				return &vfC40Op{kind: "admin", s: fmt.Sprintf("sview %s = %s where a >= %d", g.sview, T, r.IntN(3))}
 			}
 			switch r.IntN(5) {
 			case 0:
